@@ -42,6 +42,8 @@ func runC11(c *Ctx) {
 		c.Explore(orderRaceScenario(ct, c.Pick(2, 3)), mc.Options{PreemptBound: c.Pick(2, 3)})
 		// the head gives up (cancellation / timeout) while a release is being handed over
 		c.Explore(giveUpRaceScenario(ct, 3, false), mc.Options{PreemptBound: c.Pick(2, 3)})
+		// … with exactly one other caller left waiting, and a newcomer afterwards
+		c.Explore(giveUpRaceScenario(ct, 2, false, true), mc.Options{PreemptBound: c.Pick(2, 3)})
 		c.Explore(giveUpRaceScenario(ct, 2, true), mc.Options{PreemptBound: c.Pick(2, 3)})
 	}
 }
